@@ -1921,6 +1921,11 @@ class PyCdlib:
         curr_sector = 0
         while curr_sector < num_sectors:
             block = data_fp.read(self.logical_block_size)
+            if not block:
+                # The file is shorter than the length says (the length of a
+                # boot file without a name is a guess from the El Torito
+                # sector count).  Nothing is left that could add to the sum.
+                break
             block = block.ljust(2048, b'\x00')
             i = 0
             if curr_sector == 0:
